@@ -9,7 +9,7 @@
     [len_ok a b]: |a| + |b| <= 2^53, so that [usize as f64] is exact. *)
 From Coq Require Import ZArith List Bool QArith Qreals Reals Lia.
 From Flocq Require Import Core IEEE754.BinarySingleNaN.
-From TU Require Import Base C12_Model C12_Float C12_FloatBase C12_FloatProofs.
+From TU Require Import Base C12_Model C12_Proofs C12_Float C12_FloatBase C12_FloatProofs C12_FloatCheck.
 Import ListNotations.
 
 (** (1) range: the normalised distance is a finite double in [0,2], in [0,1] when whitespace may be
@@ -83,18 +83,25 @@ Theorem norm_fl_order_exact : forall fl fl' nm a b a' b',
 Proof. exact norm_fl_order_exact_l. Qed.
 Print Assumptions norm_fl_order_exact.
 
-(** ... and for every flag combination (values up to 2) when the texts have at most 2^25 characters.
-    Full statement wanted: lengths below 2^26 for every flag combination; the proof above needs
-    [2^-53 (q1 + q2) < 1/(m1 m2)], which for q up to 2 holds only up to 2^25 (a half-ulp argument on
-    [1,2) would close the factor 2; not done). *)
-Theorem norm_fl_order_exact_sid_partial : forall fl fl' nm a b a' b',
-  short25 a -> short25 b -> short25 a' -> short25 b' ->
+(** ... and for EVERY flag combination (values up to 2 under spaces_insert_delete_only), texts shorter than
+    2^26 characters: below 2 the absolute rounding error is at most half an ulp = 2^-53, and two distinct
+    fractions with denominators below 2^26 are more than 2^-52 apart.  Integer form first. *)
+Theorem quot_fl_order_exact2 : forall d1 m1 d2 m2 : Z,
+  (0 <= d1 <= 2 * m1)%Z -> (0 <= d2 <= 2 * m2)%Z -> (1 <= m1)%Z -> (1 <= m2)%Z -> (m1 * m2 < 2 ^ 52)%Z ->
+  (flt64 (quot_fl d1 m1) (quot_fl d2 m2) = true <-> (d1 * m2 < d2 * m1)%Z) /\
+  (feq64 (quot_fl d1 m1) (quot_fl d2 m2) = true <-> (d1 * m2 = d2 * m1)%Z) /\
+  ((d1 * m2 = d2 * m1)%Z -> quot_fl d1 m1 = quot_fl d2 m2).
+Proof. exact quot_order_exact2. Qed.
+Print Assumptions quot_fl_order_exact2.
+
+Theorem norm_fl_order_exact_all : forall fl fl' nm a b a' b',
+  short a -> short b -> short a' -> short b' ->
   let x := distance fl nm a b in let y := distance fl' nm a' b' in
   (flt64 (distance_fl fl nm a b) (distance_fl fl' nm a' b') = true <-> (x < y)%Q) /\
   (feq64 (distance_fl fl nm a b) (distance_fl fl' nm a' b') = true <-> (x == y)%Q) /\
   ((x == y)%Q -> distance_fl fl nm a b = distance_fl fl' nm a' b').
-Proof. exact norm_fl_order_exact_sid_l. Qed.
-Print Assumptions norm_fl_order_exact_sid_partial.
+Proof. exact norm_fl_order_exact_all_l. Qed.
+Print Assumptions norm_fl_order_exact_all.
 
 (** [distances]: the Err exactly on a length mismatch, else [distance_fl] element-wise *)
 Theorem distances_fl_spec : forall fl nm la lb,
@@ -104,7 +111,19 @@ Theorem distances_fl_spec : forall fl nm la lb,
 Proof. exact distances_fl_l. Qed.
 Print Assumptions distances_fl_spec.
 
+(** the executable statement as it is extracted and evaluated on every implementation output
+    ([check] = [check_C12F]: the clauses of [check_C12] decided on the exact values of the float fields) holds of
+    the float model's own output, for every input outside the KF2 class whose texts have at most 2^52 characters:
+    the val-level link between the checker and the theorems above *)
+Theorem check_run_fl : forall v, no_kf2 v -> short52 v -> check_C12F v (run_C12F v) = true.
+Proof. exact check_run_fl_l. Qed.
+Print Assumptions check_run_fl.
+
 (** ** non-vacuity *)
+Example check_run_fl_premises :
+  let v := (L [I 0; I 1; I 1; I 1; L [L [I 97]; L [I 32]]; L [L [I 32]; L [I 97]]; I 1; I 1])%Z in
+  no_kf2 v /\ short52 v.
+Proof. split; [intros _ _; vm_compute; repeat constructor|unfold short52; cbn; lia]. Qed.
 Definition ex_s (l : list N) : list cluster := singletons l.
 Example len_ok_example : len_ok (ex_s [97;98;99]%N) (ex_s [98;97]%N).
 Proof. unfold len_ok, P53. cbn. lia. Qed.
